@@ -608,7 +608,7 @@ func runBounded(repo, verif, prop, tier string) []*boundedResult {
 		args := []string{"test", "-tags", "verif", "-overlay", ovf, "-vet=off", "-count=1", "-timeout", to, "-run", "^TestBounded", "-v", "."}
 		cmd := exec.Command("go", args...)
 		cmd.Dir = pkgDir
-		cmd.Env = append(os.Environ(), "GOFLAGS=-mod=mod", "GOPROXY=off", "GOSUMDB=off", "GOTOOLCHAIN=local", "LZVC_TIER="+tier)
+		cmd.Env = append(os.Environ(), "GOFLAGS=-mod=mod", "GOPROXY=off", "GOSUMDB=off", "GOTOOLCHAIN=local", "LZVC_TIER="+tier, "LZVC_PROP="+prop)
 		t0 := time.Now()
 		ob, _ := cmd.CombinedOutput()
 		o := string(ob)
